@@ -371,6 +371,10 @@ impl Iterator for CountIter {
     if self.pos < self.items.len() {
       self.pos += 1;
       self.sh.bump(self.c);
+      if self.c == 7 {
+        // the counting iterator: every pull is an observation, ordered with the notifications
+        self.sh.record(0, 'I', Val::I(self.pos as i64));
+      }
       Some(self.items[self.pos - 1].clone())
     } else {
       None
